@@ -262,7 +262,9 @@ class Gen:
             inner = self.body(info, h, place, ind + ("\t\t" if con == "mlchain" else "\t"))
             if k == "goroutine":
                 lines.append(Line(f"{ind}done{h} := make(chan struct{{}})", pad))
-                inner.append(Line(f"{ind}{chr(9) * (2 if con == 'mlchain' else 1)}close(done{h})", [self.role(info, h, "pad")]))
+                # signalled by a deferred close registered first: it runs after every other deferred call of the
+                # goroutine (a later hop may be a deferred call), so the next chain never starts early
+                inner.insert(0, Line(f"{ind}{chr(9) * (2 if con == 'mlchain' else 1)}defer close(done{h})", [self.role(info, h, "pad")]))
             rb = [self.rb_role(info, h)]
             if con in ("none", "complit", "litprev"):
                 lines.append(Line(f"{ind}{pre}{kw}{L0}", call))
@@ -348,6 +350,10 @@ func main() {{
 		if which == "all" || which == e.name {{
 			e.f()
 		}}
+	}}
+	if rep.Panic {{
+		// the panic is under way in another goroutine (its deferred close released us): wait for it to end the process
+		select {{}}
 	}}
 }}
 '''
@@ -792,6 +798,10 @@ def main(tier, seed):
         o = run_bin(binp, ["all", "report"])
         if o.returncode != 0:
             raise Inconclusive(f"the regular program failed: rc={o.returncode}\n{o.stderr[-2000:]}")
+        sk = [l for l in o.stdout.split("\n") if l.startswith(("BEGIN ", "END ", "STACK"))]
+        want_sk = [x for e in gen.entries + ["tag"] for x in (f"BEGIN {e}", "STACK", f"END {e}")]
+        if sk != want_sk:
+            raise Inconclusive("the regular program's output is not the expected sequence of BEGIN/STACK/END blocks (generator problem)")
         ptxt = ""
         for t in panic_tags:
             p = run_bin(binp, [t, "panic"])
@@ -822,7 +832,8 @@ def main(tier, seed):
     if mm:
         ex = [m for s in allstats.values() for m in s["model_mismatches"]][:4]
         print(f"MODEL-MISMATCH: property=C04 {mm} (kind, construct, -literals) hops whose real outcome differs from Position.tla: {ex}", flush=True)
-    if sum(s["frames"] for s in allstats.values()) < 100:
+    if sum(s["frames"] for s in allstats.values()) < 100 and not chk.violations:
+        # (with violations recorded the verdict stands: e.g. a reverse that loses the line structure leaves no frame to compare)
         raise Inconclusive("fewer than 100 frames were compared")
     chk.exhaustive = tier == "thorough"
     return chk.finish()
